@@ -9,10 +9,10 @@ EXPLANATION = "inductive step of each Table operation from an arbitrary valid st
 def US(ns, ns2):
     big = max(ns, ns2)
     words = 11            # Table_Step / 8 with 16-byte elements and the 3-word default header
-    L = ["owns.0:26", "elem_live_count.0:26", "Type_Scan.0:24", "Type_Scan.1:24", "strcmp.0:24", "Table_Ideal_Size.0:26",
+    L = ["harness.%d:%d" % (i_, 2 * big + 4) for i_ in range(6)] + ["owns.0:26", "elem_live_count.0:26", "Type_Scan.0:24", "Type_Scan.1:24", "strcmp.0:24", "Table_Ideal_Size.0:26",
          "memcpy.0:%d" % (words + 2), "memset.0:%d" % (words + 2), "memmove.0:%d" % (words + 2),
          "words_equal.0:%d" % (ns * words + 2), "snapshot.0:%d" % (ns * words + 2)]
-    for f, n in [("Table_Set_Move", 1), ("Table_Mem", 1), ("Table_Rem", 2), ("Table_Get", 1), ("Table_Iter_Next", 1), ("Table_Iter_Prev", 1),
+    for f, n in [("Table_Set_Move", 1), ("Table_Mem", 1), ("Table_Rem", 2), ("Table_Mark", 1), ("Table_Get", 1), ("Table_Iter_Next", 1), ("Table_Iter_Prev", 1),
                  ("Table_Iter_Init", 1), ("Table_Iter_Last", 1), ("Table_Rehash", 1), ("Table_Del", 1), ("Table_Clear", 1)]:
         for i in range(n):
             L.append("%s.%d:%d" % (f, i, big + 2))
@@ -46,7 +46,7 @@ OBLIGATIONS = (
     + split(TH("get", "OP_GET", 5, Q, mem=6), (0, 4))
     + split(TH("remabsent", "OP_REM_ABSENT", 5, Q, replace_calls=STUB, mem=6), (3,))
     + split(TH("getabsent", "OP_GET_ABSENT", 5, Q, mem=6), (4,))
-    + [T("iter", "OP_ITER", 5, Q, mem=6), T("del", "OP_DEL", 5, Q, mem=6), T("resize", "OP_RESIZE", 5, Q, replace_calls=STUB, mem=6),
+    + [T("iter", "OP_ITER", 5, Q, mem=6), T("del", "OP_DEL", 5, Q, mem=6), T("mark", "OP_MARK", 5, Q, mem=6), T("resize", "OP_RESIZE", 5, Q, replace_calls=STUB, mem=6),
        T2("rehash.1to5", "OP_REHASH", 1, TH_, ["NS2=5", "HBITS=3"], ns2=5, mem=8, timeout=3600),
        T2("rehash.5to1", "OP_REHASH", 5, TH_, ["NS2=1", "HBITS=3"], mem=8, timeout=3600),
        T2("clearset", "OP_CLEAR_SET", 5, Q, ["HOME=0"], mem=6)]
